@@ -319,17 +319,18 @@ Lemma step_created : forall v d f s, is_errobj v = true -> transparent_for v f =
 Proof.
   intros v d f s He Ht Hc. split; [|apply Forall_forall; auto].
   assert (Hso : forall d', stack_of d' v = SCreated) by (intros; unfold stack_of; rewrite He; auto).
+  assert (Hpo : forall d', panic_stack_of d' v = SCreated) by (intros; unfold panic_stack_of; rewrite He; auto).
   destruct Hc as [-> | ->]; destruct f as [j | [en cb h]]; simpl in *.
-  - destruct j as [[[]|] [] []]; simpl in *; try discriminate; rewrite ?Hso; unfold carries_created; auto.
+  - destruct j as [[[]|] [] []]; simpl in *; try discriminate; rewrite ?Hso, ?Hpo; unfold carries_created; auto.
   - apply andb_true_iff in Ht. destruct Ht as [Hh Hcb].
     unfold step_nat. simpl n_cb; simpl n_entry; simpl n_h.
-    destruct cb; simpl; unfold run_wrapped; simpl; rewrite ?Hso;
+    destruct cb; simpl; unfold run_wrapped; simpl; rewrite ?Hso, ?Hpo;
       try (apply handle_created; auto); try (unfold carries_created; auto; fail).
     destruct v; simpl in Hcb; try discriminate; apply handle_created; auto.
-  - destruct j as [[[]|] [] []]; simpl in *; try discriminate; rewrite ?Hso; unfold carries_created; auto.
+  - destruct j as [[[]|] [] []]; simpl in *; try discriminate; rewrite ?Hso, ?Hpo; unfold carries_created; auto.
   - apply andb_true_iff in Ht. destruct Ht as [Hh Hcb].
     unfold step_nat. simpl n_cb; simpl n_entry; simpl n_h.
-    destruct cb; simpl; unfold run_wrapped; simpl; rewrite ?Hso;
+    destruct cb; simpl; unfold run_wrapped; simpl; rewrite ?Hso, ?Hpo;
       try (apply handle_created; auto); try (unfold carries_created; auto; fail).
     destruct v; simpl in Hcb; try discriminate; apply handle_created; auto.
 Qed.
@@ -707,3 +708,33 @@ Proof.
     repeat match goal with H : SPanic _ = SPanic _ |- _ => inversion H; subst; clear H end;
     simpl in *; try discriminate; auto.
 Qed.
+
+(* host-built error objects (empty recorded stack): a script throw statement captures the stack at the throw site *)
+Lemma hostbuilt_not_errobj : forall v, is_hostbuilt v = true -> is_errobj v = false.
+Proof.
+  intros [p|cls id|id e] H; simpl in *; try discriminate.
+  - apply N.leb_le in H. assert (L : N.ltb cls 100 = false) by (apply N.ltb_ge; exact H).
+    rewrite L. apply andb_false_r.
+  - rewrite H. reflexivity.
+Qed.
+
+Lemma hostbuilt_error_stack_at_throw : forall d v fin p st,
+  is_hostbuilt v = true ->
+  init_signal d (TJsThrow v) = SPanic (PVExc v (SAt d)) /\
+  (exc_of d p = Some (v, st) ->
+     fst (step_js d (mkJS (Some CRethrow) fin FinQuiet) (SPanic p)) = SPanic (PVExc v (SAt d))) /\
+  exc_of d (PVValue v) = Some (v, SEmpty).
+Proof.
+  intros d v fin p st H. pose proof (hostbuilt_not_errobj v H) as E.
+  repeat split.
+  - simpl. unfold stack_of. rewrite E. reflexivity.
+  - intros Hp. unfold step_js. rewrite Hp. unfold apply_fin, stack_of. simpl. rewrite E. destruct fin; reflexivity.
+  - simpl. unfold panic_stack_of. rewrite E, H. reflexivity.
+Qed.
+
+Example hostbuilt_nonvacuous :
+  fst (unwind 0 [FJS (mkJS (Some CRethrow) false FinQuiet); FJS (mkJS None true FinQuiet)] (init_signal 2 (TJsThrow (VObj 102 0))))
+    = SPanic (PVExc (VObj 102 0) (SAt 0)) /\
+  fst (unwind 0 [FJS (mkJS None false FinQuiet)] (init_signal 1 (TJsThrow (VGoErr 0 (GErr [] (BSent 1))))))
+    = SPanic (PVExc (VGoErr 0 (GErr [] (BSent 1))) (SAt 1)).
+Proof. vm_compute. split; reflexivity. Qed.
